@@ -146,18 +146,25 @@ def main(argv=None):
     for i in range(shards):
         out = os.path.join(tmp, f'shard{i}.json')
         cmd = [sys.executable, '-m', 'vf.run', '_shard', pid, args.tier, str(seed), str(i), str(examples), out]
-        procs.append((i, out, subprocess.Popen(cmd, cwd=HERE, stdout=subprocess.PIPE, stderr=subprocess.STDOUT)))
+        # (output goes to a file, not a pipe: the shards are waited for one after the other, and one that fills its pipe would stall)
+        logf = open(os.path.join(tmp, f'shard{i}.log'), 'wb')
+        procs.append((i, out, subprocess.Popen(cmd, cwd=HERE, stdout=logf, stderr=subprocess.STDOUT), logf))
     backstop = float(os.environ.get('VF_BACKSTOP_S', '1500' if args.tier == 'quick' else '14000'))
     results, harness, crashed = [], [], []
-    for i, out, p in procs:
+    for i, out, p, logf in procs:
         try:
             remaining = max(1.0, backstop - (time.time() - t0))
-            log, _ = p.communicate(timeout=remaining)
+            p.wait(timeout=remaining)
         except subprocess.TimeoutExpired:
             p.kill()
-            p.communicate()
+            p.wait()
+            logf.close()
             harness.append(f'shard {i}: wall-clock backstop of {backstop}s hit (inconclusive)')
             continue
+        logf.close()
+        with open(logf.name, 'rb') as f:
+            f.seek(max(0, os.path.getsize(logf.name) - 20000))
+            log = f.read()
         if os.path.exists(out):
             with open(out) as f:
                 results.append(json.load(f))
